@@ -13,7 +13,7 @@ func init() {
 		Title: "Pooled compressors are never shared, lost twice, or a reason to block",
 		Decided: "C13.a acquire/release typestate at the framework's own acquire sites (deferred release for local owners; the compressor field is closed, released once by the matching method and set to nil, second Close refused); " +
 			"C13.b Reset onto the target before first use of an acquired object; C13.c every channel operation in a CompressorProvider method of the module is a case of a select with default and no lock/wait is taken (acquire and release never block); " +
-			"C13.d each Acquire* hands out a channel receive, a sync.Pool.Get or a fresh object.",
+			"C13.d each Acquire* hands out a channel receive, a sync.Pool.Get or a fresh object. C13.f no compress/* struct is copied by value; C13.g = C07.c (the coding recorded for Close is the constant of the codec acquired); C13.h a cache is pre-filled by a loop bounded by the capacity its channel was made with.",
 		NotDecided:  "custom providers (user code); that concurrent responses decode to their own payload (follows from exclusivity plus compress/* contracts, not checked); sync.Pool internals.",
 		Assumptions: []string{"sync.Pool.Get/Put never block and never hand out an object twice", "select with default never blocks"},
 		Rules: []Rule{
